@@ -3,17 +3,21 @@
  * Reads a line-oriented script on stdin and prints one JSON line per command.
  * Every string (keys in, names out) is hex-encoded so that any byte but NUL can be used.
  *
- *   load <path>            read the file into an exact-size heap block (so that ASan sees every
- *                          read past the end), g_typelib_new_from_memory, g_irepository_load_typelib
- *                          with flags 0.  No search path is involved as long as the script loads
- *                          dependencies first.
- *   name <ns> <hexkey>     g_typelib_get_dir_entry_by_name + g_irepository_find_by_name; also the
- *                          raw cmph value and _gi_typelib_hash_search's slot when the typelib has
- *                          a directory-index section
- *   gtype <ns> <hexkey>    g_typelib_get_dir_entry_by_gtype_name + g_typelib_matches_gtype_name_prefix
- *                          + g_irepository_find_by_gtype (a boxed GType of that name is registered
- *                          on the fly when GLib accepts the name)
- *   domain <ns> <hexkey>   g_typelib_get_dir_entry_by_error_domain + g_irepository_find_by_error_domain
+ * <r> selects a GIRepository instance: 0 is the default one (NULL), 1..3 are separate instances
+ * created with g_object_new, so that one process can hold the same namespace twice (with and
+ * without its directory-index section).
+ *
+ *   load <r> <path>            read the file into an exact-size heap block (so that ASan sees every
+ *                              read past the end), g_typelib_new_from_memory, g_irepository_load_typelib
+ *                              with flags 0.  No search path is involved as long as the script loads
+ *                              dependencies first.
+ *   name <r> <ns> <hexkey>     g_typelib_get_dir_entry_by_name + g_irepository_find_by_name; also the
+ *                              raw cmph value and _gi_typelib_hash_search's slot when the typelib has
+ *                              a directory-index section
+ *   gtype <r> <ns> <hexkey>    g_typelib_get_dir_entry_by_gtype_name + g_typelib_matches_gtype_name_prefix
+ *                              + g_irepository_find_by_gtype (a boxed GType of that name is registered
+ *                              on the fly when GLib accepts the name and no such type exists yet)
+ *   domain <r> <ns> <hexkey>   g_typelib_get_dir_entry_by_error_domain + g_irepository_find_by_error_domain
  *
  * GLib diagnostics (g_warning, g_critical, ...) raised during a command are reported in the
  * command's "log" array, they do not go to stderr.
@@ -28,9 +32,11 @@
 #include "cmph.h"
 
 #define MAX_LIBS 16
+#define MAX_REPOS 4
 
-static struct { char *ns; GITypelib *tl; } libs[MAX_LIBS];
+static struct { int r; char *ns; GITypelib *tl; } libs[MAX_LIBS];
 static int n_libs;
+static GIRepository *repos[MAX_REPOS];
 static GString *logbuf;
 
 static void
@@ -91,13 +97,22 @@ unhex (const char *h)
 }
 
 static GITypelib *
-find_lib (const char *ns)
+find_lib (int r, const char *ns)
 {
   int i;
   for (i = 0; i < n_libs; i++)
-    if (strcmp (libs[i].ns, ns) == 0)
+    if (libs[i].r == r && strcmp (libs[i].ns, ns) == 0)
       return libs[i].tl;
   return NULL;
+}
+
+/* NULL for r == 0: the code under test then uses its default instance */
+static GIRepository *
+get_repo (int r)
+{
+  if (r > 0 && repos[r] == NULL)
+    repos[r] = g_object_new (G_TYPE_IREPOSITORY, NULL);
+  return repos[r];
 }
 
 static Section *
@@ -208,15 +223,26 @@ main (void)
 
   while ((got = getline (&line, &cap, stdin)) > 0)
     {
-      char *cmd, *a1, *a2, *save = NULL;
+      char *cmd, *ar, *a1, *a2, *save = NULL;
+      int r;
+      GIRepository *repo;
       if (line[got - 1] == '\n')
         line[got - 1] = 0;
       cmd = strtok_r (line, " ", &save);
+      ar = strtok_r (NULL, " ", &save);
       a1 = strtok_r (NULL, " ", &save);
       a2 = strtok_r (NULL, " ", &save);
       if (cmd == NULL)
         continue;
       g_string_append_printf (out, "{\"cmd\": \"%s\"", cmd);
+      r = ar ? atoi (ar) : -1;
+      if (r < 0 || r >= MAX_REPOS)
+        {
+          g_string_append (out, ", \"error\": \"bad repository number\"");
+          finish (out);
+          continue;
+        }
+      repo = get_repo (r);
 
       if (strcmp (cmd, "load") == 0 && a1 != NULL)
         {
@@ -245,7 +271,7 @@ main (void)
               finish (out);
               continue;
             }
-          ns = g_irepository_load_typelib (NULL, tl, 0, &error);
+          ns = g_irepository_load_typelib (repo, tl, 0, &error);
           if (ns == NULL)
             {
               g_string_append (out, ", \"ok\": false, \"stage\": \"load\", \"error\": ");
@@ -259,6 +285,7 @@ main (void)
               finish (out);
               continue;
             }
+          libs[n_libs].r = r;
           libs[n_libs].ns = g_strdup (ns);
           libs[n_libs].tl = tl;
           n_libs++;
@@ -277,7 +304,7 @@ main (void)
       if ((strcmp (cmd, "name") == 0 || strcmp (cmd, "gtype") == 0 || strcmp (cmd, "domain") == 0)
           && a1 != NULL && a2 != NULL)
         {
-          GITypelib *tl = find_lib (a1);
+          GITypelib *tl = find_lib (r, a1);
           char *key = unhex (a2);
           Header *header;
           if (tl == NULL || key == NULL)
@@ -305,7 +332,7 @@ main (void)
               g_string_append (out, ", \"entry\": ");
               put_entry (out, tl, g_typelib_get_dir_entry_by_name (tl, key));
               g_string_append (out, ", \"repo\": ");
-              put_info (out, g_irepository_find_by_name (NULL, a1, key));
+              put_info (out, g_irepository_find_by_name (repo, a1, key));
             }
           else if (cmd[0] == 'g')
             {
@@ -326,7 +353,7 @@ main (void)
                 g_string_append (out, ", \"gtype\": \"unregistrable\"");
               g_string_append (out, ", \"repo\": ");
               if (t != 0)
-                put_info (out, g_irepository_find_by_gtype (NULL, t));
+                put_info (out, g_irepository_find_by_gtype (repo, t));
               else
                 g_string_append (out, "\"skipped\"");
             }
@@ -336,7 +363,7 @@ main (void)
               g_string_append (out, ", \"entry\": ");
               put_entry (out, tl, g_typelib_get_dir_entry_by_error_domain (tl, q));
               g_string_append (out, ", \"repo\": ");
-              put_info (out, (GIBaseInfo *) g_irepository_find_by_error_domain (NULL, q));
+              put_info (out, (GIBaseInfo *) g_irepository_find_by_error_domain (repo, q));
             }
           g_free (key);
           finish (out);
